@@ -101,8 +101,9 @@ func FieldCase(r *rand.Rand, name string, o FieldOpts) *Case {
 		return nm
 	}
 	needIgnoreCase, needIgnoreMissing, needIgnoreUnexported := false, false, false
+	snapshot := false
 	nf := 3 + r.Intn(5)
-	kinds := []string{"same", "same", "rename", "recase", "nested", "nestedptr", "automap", "whole", "method", "ignore", "missing", "unexported", "exactwins", "exactmethod", "sourceonly", "allmissing"}
+	kinds := []string{"same", "same", "rename", "recase", "nested", "nestedptr", "automap", "whole", "method", "ignore", "missing", "unexported", "exactwins", "exactmethod", "sourceonly", "allmissing", "snapshot"}
 	for i := 0; i < nf; i++ {
 		kind := kinds[r.Intn(len(kinds))]
 		base := fmt.Sprintf("F%c", 'a'+i)
@@ -234,6 +235,18 @@ func FieldCase(r *rand.Rand, name string, o FieldOpts) *Case {
 			fields[tn] = vref.FieldSpec{Path: []string{"."}}
 			// the sub struct takes a field that exists on the source: added after the loop
 			c.Feature("whole", tn+"/"+wd.Name)
+		case "snapshot":
+			// map . FIELD where FIELD has the very type of the source: still a deep copy
+			if snapshot || samePkg {
+				i--
+				continue
+			}
+			snapshot = true
+			tn := fname(usedT, base+"Snap")
+			usedS[strings.ToLower(tn)] = true
+			tStruct.Fields = append(tStruct.Fields, F(tn, Named(S)))
+			methLines = append(methLines, "map . "+tn)
+			fields[tn] = vref.FieldSpec{Path: []string{"."}}
 		case "method":
 			b := leaf()
 			mn := fname(usedS, base+"Calc")
@@ -452,7 +465,20 @@ func NegativeFieldCases() []*Case {
 		c.Note = conv
 		return c
 	}
+	foreignSrc := func(name, neg, conv string) *Case {
+		c := RawCase("n_"+name, map[string]string{
+			"other/types.go": "package other\n\ntype Src struct{ A int; audit Audit }\ntype Audit struct{ By string }\n",
+			"p/input.go":     "package p\n\nimport \"vcase/n_" + name + "/other\"\n\ntype Out struct{ A int; By string }\n\n" + conv,
+		}, nil, []string{"./p"})
+		c.Feature("negative", neg)
+		c.Note = conv
+		return c
+	}
 	extra := []*Case{
+		foreignSrc("map_path_through_unexported", "map path whose FIRST element is an unexported field of a struct in another package",
+			"// goverter:converter\ntype Converter interface {\n\t// goverter:map audit.By By\n\tConvert(source other.Src) Out\n}\n"),
+		foreignSrc("automap_unexported", "autoMap of an unexported field of a struct in another package",
+			"// goverter:converter\ntype Converter interface {\n\t// goverter:autoMap audit\n\tConvert(source other.Src) Out\n}\n"),
 		foreign("map_func_unexported_target", "map|FUNC onto an unexported field of a struct in another package",
 			"// goverter:converter\ntype Converter interface {\n\t// goverter:map S secret | F\n\tConvert(source In) other.Out\n}\n"),
 		foreign("map_nosource_func_unexported_target", "map TARGET|FUNC (no source) onto an unexported field of a struct in another package",
@@ -507,6 +533,8 @@ func negativeFieldCasesLocal() []*Case {
 			"type In struct{ ZIPCODE int; Addr Address }\ntype Address struct{ Zipcode int }\ntype Out struct{ ZipCode int }\n", iface("matchIgnoreCase", "autoMap Addr")),
 		mk("ambiguous_loose_two_automap", "two autoMap fields are case-insensitive candidates and no exact one exists",
 			"type In struct{ A1 Address; A2 Address2 }\ntype Address struct{ Zipcode int }\ntype Address2 struct{ ZIPCODE int }\ntype Out struct{ ZipCode int }\n", iface("matchIgnoreCase", "autoMap A1", "autoMap A2")),
+		mk("map_unknown_source_ignoremissing", "map names a source field that does not exist (must stay an error under ignoreMissing)", base, iface("ignoreMissing", "map Nope A")),
+		mk("map_unknown_path_ignoremissing", "map names a source path whose last element does not exist (must stay an error under ignoreMissing)", base, iface("ignoreMissing", "map N.Nope A")),
 		mk("map_twice", "two goverter:map settings for one target field", base, iface("map A A", "map N.X A")),
 		mk("map_twice_func", "goverter:map with a function and a plain goverter:map for one target field", base+"func Up(i int) int { return i + 1 }\n", iface("map A A | Up", "map N.X A")),
 		mk("map_then_ignore", "goverter:map and goverter:ignore for one target field", base, iface("map A A", "ignore A")),
